@@ -459,8 +459,13 @@ class PlayerPlaceholder(BasePlaceholder):
         self._number = number
 
     def subscribe(self):
-        """Subscribe to player changes."""
-        return self._machine.events.wait_for_any_event(["player_turn_ended", "player_turn_started"])
+        """Subscribe to player changes.
+
+        mode_game_stopped is the last event of a game: machine.game is removed in its callback. Without it a
+        template keeps the last player's value after the game is over.
+        """
+        return self._machine.events.wait_for_any_event(["player_turn_ended", "player_turn_started",
+                                                        "mode_game_stopped"])
 
     def subscribe_attribute(self, item):
         """Subscribe player variable changes."""
@@ -502,8 +507,12 @@ class PlayersPlaceholder(BasePlaceholder):
         self._machine = machine     # type: MachineController
 
     def subscribe(self):
-        """Subscribe to player list changes."""
-        return self._machine.events.wait_for_any_event(["player_added", "game_ended"])
+        """Subscribe to player list changes.
+
+        game_ended may be handled while machine.game is still set (when the stop of the game mode is delayed by a
+        queue handler); mode_game_stopped is posted right before machine.game is removed.
+        """
+        return self._machine.events.wait_for_any_event(["player_added", "game_ended", "mode_game_stopped"])
 
     def subscribe_attribute(self, item):
         """Subscribe player variable changes."""
